@@ -103,7 +103,11 @@ static void names(void) {
 			mtbl_compression_type t = (mtbl_compression_type) 99;
 			mtbl_res r = mtbl_compression_type_from_str(s, &t);
 			if (expect < 0 && r == mtbl_res_success) { snprintf(cb, sizeof cb, "name:str:%s", s); vh_violation_case("accepts-unknown", cb, "from_str accepts unknown name '%s' as %d", s, (int) t); }
-			if (expect >= 0 && (r != mtbl_res_success || (int) t != expect)) { snprintf(cb, sizeof cb, "name:str:%s", s); vh_violation_case("refuses-known", cb, "from_str('%s') should give %d", s, expect); }
+			/* the statement only demands that the canonical names round trip and that unknown names are refused: a name that differs from a canonical
+			 * one in letter case may be accepted (as today) or refused, but must never yield another algorithm */
+			{ bool exact = false; for (int i = 0; i < 6; i++) if (!strcmp(s, valid[i])) exact = true;
+			  if (expect >= 0 && exact && (r != mtbl_res_success || (int) t != expect)) { snprintf(cb, sizeof cb, "name:str:%s", s); vh_violation_case("refuses-known", cb, "from_str('%s') should give %d", s, expect); }
+			  if (expect >= 0 && !exact && r == mtbl_res_success && (int) t != expect) { snprintf(cb, sizeof cb, "name:str:%s", s); vh_violation_case("wrong-type", cb, "from_str('%s') gives %d, the only acceptable answers are %d or refusal", s, (int) t, expect); } }
 			VH_COUNT("transitions", 1); VH_COUNT("cases", 1);
 		}
 	}
@@ -120,13 +124,15 @@ static void names(void) {
 				int expect = -1; for (int k = 0; k < 6; k++) if (!strcasecmp(t2, valid[k])) expect = vals[k];
 				mtbl_compression_type t = (mtbl_compression_type) 99;
 				mtbl_res r = mtbl_compression_type_from_str(t2, &t);
-				if ((expect < 0) != (r != mtbl_res_success) || (expect >= 0 && (int) t != expect)) { snprintf(cb, sizeof cb, "name:str:%s", t2); vh_violation_case("edit", cb, "from_str('%s') -> res=%d type=%d, expected %d", t2, (int) r, (int) t, expect); }
+				bool exact2 = false; for (int k = 0; k < 6; k++) if (!strcmp(t2, valid[k])) exact2 = true;
+				if ((expect < 0 && r == mtbl_res_success) || (expect >= 0 && exact2 && r != mtbl_res_success) || (expect >= 0 && r == mtbl_res_success && (int) t != expect)) { snprintf(cb, sizeof cb, "name:str:%s", t2); vh_violation_case("edit", cb, "from_str('%s') -> res=%d type=%d, expected %d", t2, (int) r, (int) t, expect); }
 				VH_COUNT("transitions", 1); VH_COUNT("cases", 1);
 			}
 			for (unsigned m = 0; m < (1u << L); m++) {
 				char t2[32]; for (size_t k = 0; k < L; k++) t2[k] = (m >> k & 1) ? toupper((unsigned char) valid[i][k]) : valid[i][k]; t2[L] = 0;
 				mtbl_compression_type t = (mtbl_compression_type) 99;
-				if (mtbl_compression_type_from_str(t2, &t) != mtbl_res_success || (int) t != vals[i]) { snprintf(cb, sizeof cb, "name:str:%s", t2); vh_violation_case("case", cb, "from_str('%s') refused or wrong", t2); }
+				mtbl_res rr = mtbl_compression_type_from_str(t2, &t);
+				if ((m == 0 && rr != mtbl_res_success) || (rr == mtbl_res_success && (int) t != vals[i])) { snprintf(cb, sizeof cb, "name:str:%s", t2); vh_violation_case("case", cb, "from_str('%s'): canonical spelling refused, or a case variant mapped to another algorithm", t2); }
 				VH_COUNT("transitions", 1); VH_COUNT("cases", 1);
 			}
 		}
